@@ -31,6 +31,10 @@ def gen_graph_scenario(rng: random.Random, nnodes=None, nuser=None, recurse_bias
         defs.append({"id": i, "code": 100 + i, "isMethod": False, "prio": rng.choice([0, 0, 0, 1]), "params": [{"name": 0, "kind": "pk", "req": True, "ty": ["cls", c]}], "body": body})
     ops = [["create", [], False]]
     nn = 1
+    # functions that are derived from and changed but never called themselves: an intermediate that was never put
+    # to use must still pass changes on to the functions built on top of it
+    quiet = set()
+    quiet_p = rng.choice([0.0, 0.3, 0.5])
     derives = {0: set()}  # node -> set of ancestors
     maxn = nnodes or rng.randint(2, 5)
     nsteps = rng.randint(6, 16)
@@ -39,8 +43,10 @@ def gen_graph_scenario(rng: random.Random, nnodes=None, nuser=None, recurse_bias
         if r < 0.2 and nn < maxn:
             k = rng.choice([0, 1, 1, 2])
             ms = rng.sample(range(nn), min(k, nn))
-            ops.append(["create", ms, rng.random() < 0.5])
+            ops.append(["create", ms, rng.random() < (0.8 if quiet_p else 0.5)])
             derives[nn] = set(ms) | set().union(*[derives[m] for m in ms]) if ms else set()
+            if rng.random() < quiet_p:
+                quiet.add(nn)
             nn += 1
             # like `@f.variant def f(...)`: the child's first own method is the function that also named its parent
             # (related functions then share their short name)
@@ -63,12 +69,14 @@ def gen_graph_scenario(rng: random.Random, nnodes=None, nuser=None, recurse_bias
         elif r < 0.65:
             ops.append(["unreg", rng.randrange(nn), rng.randrange(ndefs)])
         else:
-            ops.append(["call", rng.randrange(nn), [rng.randrange(len(args))], []])
+            loud = [n for n in range(nn) if n not in quiet]
+            if loud:
+                ops.append(["call", rng.choice(loud), [rng.randrange(len(args))], []])
         # probes on every node after structural changes
         if ops[-1][0] != "call" and rng.random() < 0.5:
             a = rng.randrange(len(args))
             for n in range(nn):
-                if rng.random() < 0.7:
+                if n not in quiet and rng.random() < 0.7:
                     ops.append(["call", n, [a], []])
     alltys = []
     for d in defs:
